@@ -124,15 +124,36 @@ def r2_2(run):
     # Colebrook: implicit residual and its derivative
     cw = ix.func(DC + ".colebrook_white")
     run.analysed(cw)
-    imp = ix.nested(cw, "colebrook_white_implicit")
-    der = ix.nested(cw, "cw_derivative")
-    a = {"lambda_cb": g(Poly.sym("lam")), "re_nz": g(Poly.sym("re")), "k_nz": g(Poly.sym("k")), "d_nz": g(Poly.sym("d"))}
+    # which nested functions are handed to the Newton solver, and with which arguments (whole-function terms)
+    from ..arrnf import ANF as _ANF, key as _tkey
+    pcw = cw.params()
+    if len(pcw) != 7:
+        raise AnalysisError("colebrook_white no longer has 7 parameters")
+    rcw = _ANF(ix, cw, param_alias=dict(zip(pcw, ("re", "d", "k", "lambda_nikuradse", "max_iter", "lengths", "tolerance")))).run()
+    ncalls = [c for c in rcw.calls() if c.fn[0] == "x" and c.fn[1].endswith("newton")]
+    if len(ncalls) != 1:
+        raise AnalysisError("unrecognised shape: colebrook_white calls the Newton solver %d times" % len(ncalls))
+    nc_ = ncalls[0]
+    nkw = dict(nc_.kw)
+    fterm = nc_.args[0] if nc_.args else nkw.get("func")
+    dterm = nkw.get("fprime")
+    lf = getattr(rcw, "localfns", {})
+    if not (fterm is not None and dterm is not None and fterm[0] == "localfn" and dterm[0] == "localfn" and fterm[1] in lf and dterm[1] in lf):
+        raise AnalysisError("unrecognised shape: the function / derivative passed to newton() are not nested functions of colebrook_white")
+    from ..index import FunctionInfo as _FI
+    imp = _FI(cw.module, lf[fterm[1]].name, lf[fterm[1]], parent=cw)
+    der = _FI(cw.module, lf[dterm[1]].name, lf[dterm[1]], parent=cw)
+    if len(imp.params()) != 4 or len(der.params()) != 4:
+        raise AnalysisError("unrecognised shape: residual / derivative do not take (lambda, re, k, d)")
+    # positional roles: (unknown, *args) with args = (re[mask], k[mask], d[mask]) is checked below
+    a = dict(zip(imp.params(), (g(Poly.sym("lam")), g(Poly.sym("re")), g(Poly.sym("k")), g(Poly.sym("d")))))
+    a_der = dict(zip(der.params(), (g(Poly.sym("lam")), g(Poly.sym("re")), g(Poly.sym("k")), g(Poly.sym("d")))))
     ki, _ = run_kernel(ix, None, fi=imp, args=a)
-    want = run_spec(ix, "colebrook_residual", {"lam": a["lambda_cb"], "re": a["re_nz"], "k": a["k_nz"], "d": a["d_nz"]})[0]
+    want = run_spec(ix, "colebrook_residual", {"lam": g(Poly.sym("lam")), "re": g(Poly.sym("re")), "k": g(Poly.sym("k")), "d": g(Poly.sym("d"))})[0]
     check_equal(run, "colebrook_white|implicit-residual", ki.outputs[0], want,
                 "the function handed to the Newton solver is 1/sqrt(l) + 2 log10(2.51/(Re sqrt(l)) + k/(3.71 d))",
                 run.where(cw, imp.node))
-    kd, _ = run_kernel(ix, None, fi=der, args=a)
+    kd, _ = run_kernel(ix, None, fi=der, args=a_der)
     p = ki.outputs[0].plain()
     if p is None:
         raise AnalysisError("colebrook residual is guarded")
@@ -140,19 +161,13 @@ def r2_2(run):
     check_equal(run, "colebrook_white|derivative-is-derivative", kd.outputs[0], g(dp),
                 "cw_derivative is the derivative of the implicit residual with respect to lambda", run.where(cw, der.node))
     # the Newton call wires function, derivative, start value and arguments consistently
-    nc = [c for c in calls(cw.node, "newton")]
+    x0 = nc_.args[1] if len(nc_.args) > 1 else nkw.get("x0")
     ok = False
-    if len(nc) == 1:
-        c = nc[0]
-        kw = {k.arg: k.value for k in c.keywords}
-        argn = [U(x) for x in kw["args"].elts] if isinstance(kw.get("args"), ast.Tuple) else []
-        mask = None
-        for x in ast.walk(c.args[1]):
-            if isinstance(x, ast.Subscript):
-                mask = U(x.slice)
-        ok = U(c.args[0]) == "colebrook_white_implicit" and U(kw.get("fprime")) == "cw_derivative" \
-            and argn == ["re[%s]" % mask, "k[%s]" % mask, "d[%s]" % mask] and imp.params()[1:] == ["re_nz", "k_nz", "d_nz"] \
-            and U(kw.get("maxiter")) == "max_iter" and U(kw.get("tol")) == "tolerance"
+    if x0 is not None and x0[0] == "idx" and len(x0[2]) == 1:
+        mask = x0[2][0]
+        want_args = ("tuple", tuple(("idx", ("n", nm), (mask,)) for nm in ("re", "k", "d")))
+        ok = _tkey(nkw.get("args")) == _tkey(want_args) and nkw.get("maxiter") == ("n", "max_iter") and nkw.get("tol") == ("n", "tolerance") \
+            and x0[1] == ("n", "lambda_nikuradse")
     run.ob("colebrook_white|newton-wiring", ok,
            "newton() receives the residual, its derivative, (re, k, d) of the same mask in parameter order, max_iter "
            "and tolerance", run.where(cw, cw.node))
